@@ -317,20 +317,24 @@ Proof.
 Qed.
 
 Lemma one_block_is_apply_block fx le fes :
-  fx_dash_hides fx = true -> fx_remove_safe fx = true ->
+  fx_dash_hides fx = true -> fx_remove_safe fx = true -> fx_hidden_stays fx = true ->
   all_from_dir fes = true -> NoDup (map (fun oe : oentry => e_selector (snd oe)) fes) ->
   NoDup (dir_names fes) ->
-  merge_link_files fx [le] fes = Ok (apply_block fes le).
+  merge_link_files fx (prune fx [] (dict_lookup fes) [le]) fes = Ok (apply_block fes le).
 Proof.
-  intros Fd Fr A NDs NDn. unfold merge_link_files, apply_block. cbn [merge_loop].
-  rewrite (dict_is_find fes _ A NDs).
-  destruct (le_merge le); cbn [negb]; [|reflexivity].
-  destruct (find_target fes (e_selector (le_entry le))) as [n|]; [|reflexivity].
+  intros Fd Fr Fh A NDs NDn. unfold merge_link_files, apply_block, prune, prune_drops. rewrite Fh.
+  cbn [filter mem_str orb].
   assert (H : link_hides fx (e_type (le_entry le)) = spec_hides (e_type (le_entry le))).
   { unfold link_hides, spec_hides, cap_hides. rewrite Fd. destruct (e_type (le_entry le)); reflexivity. }
-  rewrite H. destruct (spec_hides (e_type (le_entry le))); [|reflexivity].
-  rewrite Fr. pose proof (remove_origin_filter n fes NDn) as R.
-  destruct (remove_origin n fes); now rewrite <- R.
+  rewrite H, (dict_is_find fes _ A NDs).
+  destruct (le_merge le) eqn:M; cbn [andb negb merge_loop]; rewrite ?M; cbn [negb]; [|reflexivity].
+  destruct (find_target fes (e_selector (le_entry le))) as [n|] eqn:F; cbn [isnone andb negb].
+  - cbn [merge_loop]. rewrite M, (dict_is_find fes _ A NDs), F, H. cbn [negb].
+    destruct (spec_hides (e_type (le_entry le))); [|reflexivity].
+    rewrite Fr. pose proof (remove_origin_filter n fes NDn) as R.
+    destruct (remove_origin n fes); now rewrite <- R.
+  - destruct (spec_hides (e_type (le_entry le))); cbn [negb merge_loop]; [reflexivity|].
+    now rewrite M, (dict_is_find fes _ A NDs), F.
 Qed.
 
 (* ================= the two documented discrepancies of the pinned code ================= *)
@@ -419,3 +423,357 @@ Lemma example_parse :
 lines"%string)] false) false false;
       mkLentry (mkEntry (lit "/d/fred"%string) (Some 88) None None None None [] false) true false].
 Proof. vm_compute. reflexivity. Qed.
+
+(* ================= MergeLinkFiles vs the reference reading, any list of blocks ================= *)
+(* ---- a whole list of blocks: MergeLinkFiles = the reference reading ---- *)
+(* (name, selector) of the directory entries of a listing, in order *)
+Fixpoint dir_sels (l : list oentry) : list (str * str) :=
+  match l with
+  | [] => []
+  | (Some n, e) :: r => (n, e_selector e) :: dir_sels r
+  | (None, _) :: r => dir_sels r
+  end.
+
+Lemma dir_sels_names l : map fst (dir_sels l) = dir_names l.
+Proof. induction l as [|[[n|] e] r IH]; cbn; [reflexivity| |exact IH]. now rewrite IH. Qed.
+
+Lemma dir_sels_app a b : dir_sels (a ++ b) = dir_sels a ++ dir_sels b.
+Proof. induction a as [|[[n|] e] r IH]; cbn; [reflexivity| |exact IH]. now rewrite IH. Qed.
+
+Definition sel_hit (sel : str) (p : str * str) : option str :=
+  if str_eqb (snd p) sel then Some (fst p) else None.
+
+Lemma find_target_sels l sel : find_target l sel = first_some (sel_hit sel) (dir_sels l).
+Proof.
+  unfold find_target. induction l as [|[[n|] e] r IH]; cbn [first_some dir_sels fst snd]; [reflexivity| |exact IH].
+  unfold sel_hit at 1. cbn [fst snd]. destruct (str_eqb (e_selector e) sel); [reflexivity | exact IH].
+Qed.
+
+Lemma dir_sels_all_from_dir l : all_from_dir l = true ->
+  map snd (dir_sels l) = map (fun oe : oentry => e_selector (snd oe)) l.
+Proof.
+  induction l as [|[[n|] e] r IH]; cbn; intros H; [reflexivity| |discriminate]. now rewrite IH.
+Qed.
+
+Lemma dir_sels_filter_origin n l :
+  dir_sels (filter (fun oe => negb (origin_is n oe)) l) = filter (fun p => negb (str_eqb (fst p) n)) (dir_sels l).
+Proof.
+  induction l as [|[[m|] e] r IH]; cbn [filter dir_sels]; [reflexivity| |].
+  - unfold origin_is at 1. cbn [fst]. destruct (str_eqb m n); cbn [negb dir_sels filter fst]; now rewrite IH.
+  - unfold origin_is at 1. cbn [fst negb dir_sels]. exact IH.
+Qed.
+
+(* updating the entry of n with something that keeps its selector *)
+Lemma dir_sels_update n f l :
+  (forall m e, In (Some m, e) l -> str_eqb m n = true -> e_selector (f e) = e_selector e) ->
+  dir_sels (update_origin n f l) = dir_sels l.
+Proof.
+  intros H. induction l as [|[[m|] e] r IH]; cbn [update_origin map dir_sels]; [reflexivity| |].
+  - unfold origin_is at 1. cbn [fst]. destruct (str_eqb m n) eqn:E; cbn [dir_sels fst snd].
+    + rewrite (H m e (or_introl eq_refl) E). f_equal. apply IH. intros m' e' I. apply H. now right.
+    + f_equal. apply IH. intros m' e' I. apply H. now right.
+  - unfold origin_is at 1. cbn [fst dir_sels]. apply IH. intros m' e' I. apply H. now right.
+Qed.
+
+Lemma in_dir_sels l n e : In (Some n, e) l -> In (n, e_selector e) (dir_sels l).
+Proof.
+  induction l as [|[[m|] e'] r IH]; cbn; intros H; [destruct H| |].
+  - destruct H as [H|H]; [inversion H; now left | right; now apply IH].
+  - destruct H as [H|H]; [discriminate | now apply IH].
+Qed.
+
+Lemma first_some_hit_in sel l n : first_some (sel_hit sel) l = Some n -> In (n, sel) l.
+Proof.
+  induction l as [|[m s] r IH]; cbn [first_some]; [discriminate|]. unfold sel_hit at 1. cbn [fst snd].
+  destruct (str_eqb s sel) eqn:E.
+  - intros H. inversion H. subst. apply str_eqb_eq in E. subst. now left.
+  - intros H. right. now apply IH.
+Qed.
+
+Lemma first_some_none_notin sel l : first_some (sel_hit sel) l = None -> forall n, ~ In (n, sel) l.
+Proof.
+  induction l as [|[m s] r IH]; cbn [first_some]; intros H n I; [destruct I|]. unfold sel_hit at 1 in H. cbn [fst snd] in H.
+  destruct (str_eqb s sel) eqn:E; [discriminate|]. destruct I as [I|I].
+  - inversion I. subst. rewrite str_eqb_refl in E. discriminate.
+  - now apply (IH H n).
+Qed.
+
+Lemma nodup_fst_unique {A B} (l : list (A * B)) a b1 b2 :
+  NoDup (map fst l) -> In (a, b1) l -> In (a, b2) l -> b1 = b2.
+Proof.
+  induction l as [|[x y] r IH]; cbn; intros ND I1 I2; [destruct I1|].
+  inversion ND as [|? ? Hn Hr]. subst.
+  destruct I1 as [I1|I1], I2 as [I2|I2].
+  - congruence.
+  - inversion I1. subst. exfalso. apply Hn. now apply (in_map fst _ (a, b2)).
+  - inversion I2. subst. exfalso. apply Hn. now apply (in_map fst _ (a, b1)).
+  - now apply IH.
+Qed.
+
+Lemma nodup_snd_unique {A B} (l : list (A * B)) a1 a2 b :
+  NoDup (map snd l) -> In (a1, b) l -> In (a2, b) l -> a1 = a2.
+Proof.
+  induction l as [|[x y] r IH]; cbn; intros ND I1 I2; [destruct I1|].
+  inversion ND as [|? ? Hn Hr]. subst.
+  destruct I1 as [I1|I1], I2 as [I2|I2].
+  - congruence.
+  - inversion I1. subst. exfalso. apply Hn. now apply (in_map snd _ (a2, b)).
+  - inversion I2. subst. exfalso. apply Hn. now apply (in_map snd _ (a1, b)).
+  - now apply IH.
+Qed.
+
+Lemma first_some_filter {A B} (g : A -> option B) (q : A -> bool) l :
+  (forall x, g x <> None -> q x = true) -> first_some g (filter q l) = first_some g l.
+Proof.
+  intros H. induction l as [|x r IH]; [reflexivity|]. cbn [filter first_some].
+  destruct (q x) eqn:Q; cbn [first_some].
+  - now rewrite IH.
+  - destruct (g x) eqn:G; [|exact IH]. rewrite H in Q; [discriminate | congruence].
+Qed.
+
+Lemma update_origin_absent n f l : ~ In n (dir_names l) -> update_origin n f l = l.
+Proof.
+  induction l as [|[[m|] e] r IH]; cbn [update_origin map dir_names]; intros H; [reflexivity| |].
+  - unfold origin_is at 1. cbn [fst]. destruct (str_eqb m n) eqn:E.
+    + apply str_eqb_eq in E. subst. exfalso. apply H. now left.
+    + f_equal. apply IH. intro I. apply H. now right.
+  - unfold origin_is at 1. cbn [fst]. f_equal. now apply IH.
+Qed.
+
+Lemma filter_origin_absent n l : ~ In n (dir_names l) -> filter (fun oe => negb (origin_is n oe)) l = l.
+Proof.
+  intros H. apply filter_all. intros [[m|] e] I; unfold origin_is; cbn [fst]; [|reflexivity].
+  apply negb_true_iff, str_eqb_neq. intro E. subst. apply H.
+  rewrite <- dir_sels_names. apply (in_map fst _ (n, e_selector e)). now apply in_dir_sels.
+Qed.
+
+Section Blocks.
+  Variable fx : fixes.
+  Hypothesis Fd : fx_dash_hides fx = true.
+  Hypothesis Fr : fx_remove_safe fx = true.
+  Hypothesis Fh : fx_hidden_stays fx = true.
+  Variable fes0 : list oentry.
+  Hypothesis A0 : all_from_dir fes0 = true.
+  Hypothesis NDs : NoDup (map (fun oe : oentry => e_selector (snd oe)) fes0).
+  Hypothesis NDn : NoDup (dir_names fes0).
+  (* the files their .cap file has hidden: none of them is in the listing *)
+  Variable dropped : list str.
+  Hypothesis Dr : forall s, In s dropped -> dict_lookup fes0 s = None.
+
+  Let S0 := dir_sels fes0.
+  Let dict0 := dict_lookup fes0.
+  Notation PR := (prune fx dropped dict0).
+
+  Lemma S0_nodup_fst : NoDup (map fst S0).
+  Proof. unfold S0. now rewrite dir_sels_names. Qed.
+  Lemma S0_nodup_snd : NoDup (map snd S0).
+  Proof. unfold S0. now rewrite (dir_sels_all_from_dir _ A0). Qed.
+
+  Lemma dict0_is sel : dict0 sel = first_some (sel_hit sel) S0.
+  Proof. unfold dict0. rewrite (dict_is_find fes0 sel A0 NDs). apply find_target_sels. Qed.
+
+  Lemma prune_cons le r :
+    PR (le :: r) = if prune_drops fx dropped dict0 le then PR r else le :: PR r.
+  Proof. unfold prune. rewrite Fh. cbn [filter]. destruct (prune_drops fx dropped dict0 le); reflexivity. Qed.
+
+  (* the state of the loop: the directory entries still present are those of the
+     start whose selector has not been hidden, with unchanged selectors *)
+  Definition inv (cur : list oentry) (H : list str) : Prop :=
+    dir_sels cur = filter (fun p => negb (mem_str (snd p) H)) S0 /\
+    (forall sel, In sel H -> (exists n, In (n, sel) S0) \/ In sel dropped).
+
+  Lemma inv_names_nodup cur H : inv cur H -> NoDup (dir_names cur).
+  Proof.
+    intros [E _]. rewrite <- dir_sels_names, E.
+    assert (G : forall (l : list (str * str)) q, NoDup (map fst l) -> NoDup (map fst (filter q l))).
+    { induction l as [|x r IH]; intros q ND; [constructor|]. cbn [filter]. inversion ND as [|? ? Hn Hr]. subst.
+      destruct (q x); [|now apply IH]. cbn [map]. constructor; [|now apply IH].
+      intro I. apply Hn. apply in_map_iff in I as (y & Ey & Iy). apply filter_In in Iy as [Iy _].
+      rewrite <- Ey. now apply in_map. }
+    apply G, S0_nodup_fst.
+  Qed.
+
+  Lemma inv_find cur H sel : inv cur H -> mem_str sel H = false ->
+    find_target cur sel = dict0 sel.
+  Proof.
+    intros [E _] M. rewrite find_target_sels, E, dict0_is. apply first_some_filter.
+    intros [m s]. unfold sel_hit. cbn [fst snd]. destruct (str_eqb s sel) eqn:Es; [|congruence].
+    intros _. apply str_eqb_eq in Es. subst. now rewrite M.
+  Qed.
+
+  Lemma inv_hidden_absent cur H sel n : inv cur H -> mem_str sel H = true ->
+    dict0 sel = Some n -> ~ In n (dir_names cur).
+  Proof.
+    intros [E _] M D I. rewrite dict0_is in D. apply first_some_hit_in in D.
+    rewrite <- dir_sels_names, E in I. apply in_map_iff in I as ([m s] & Em & Im). cbn in Em. subst m.
+    apply filter_In in Im as [Im Q]. cbn [snd] in Q.
+    assert (s = sel) by (eapply nodup_fst_unique; [apply S0_nodup_fst | exact Im | exact D]). subst.
+    rewrite M in Q. discriminate.
+  Qed.
+
+  Lemma inv_hidden_no_target cur H sel : inv cur H -> mem_str sel H = true -> dict0 sel = None ->
+    mem_str sel dropped = true.
+  Proof.
+    intros [_ T] M D. apply mem_str_In in M. destruct (T sel M) as [[n I]|I]; [|now apply mem_str_In].
+    exfalso. rewrite dict0_is in D. exact (first_some_none_notin sel S0 D n I).
+  Qed.
+
+  Lemma step_ok le cur H :
+    inv cur H -> (forall s, In s dropped -> In s H) ->
+    exists cur', (forall r, merge_loop fx dict0 (PR (le :: r)) cur = merge_loop fx dict0 (PR r) cur') /\
+                 apply_block_h (cur, H) le = (cur', snd (apply_block_h (cur, H) le)) /\
+                 inv cur' (snd (apply_block_h (cur, H) le)) /\
+                 (forall s, In s dropped -> In s (snd (apply_block_h (cur, H) le))).
+  Proof.
+    intros I Sub. unfold apply_block_h. cbn [fst snd]. setoid_rewrite prune_cons. unfold prune_drops.
+    destruct (le_merge le) eqn:M; cbn [negb andb].
+    2:{ exists (cur ++ [(None, le_entry le)]). split; [intros r; cbn [merge_loop]; now rewrite M|].
+        split; [reflexivity|]. split; [|exact Sub].
+        destruct I as [E T]. split; [|exact T]. rewrite dir_sels_app. cbn. now rewrite app_nil_r. }
+    set (e := le_entry le). set (sel := e_selector e).
+    assert (LH : link_hides fx (e_type e) = spec_hides (e_type e)).
+    { unfold link_hides, spec_hides, cap_hides. rewrite Fd. destruct (e_type e); reflexivity. }
+    rewrite LH.
+    destruct (mem_str sel H) eqn:MH.
+    - (* the path has been hidden before: nothing happens *)
+      exists cur. split; [|split; [reflexivity | split; [exact I | exact Sub]]].
+      intros r. destruct (dict0 sel) as [n|] eqn:D; cbn [isnone andb].
+      + cbn [merge_loop]. rewrite M. fold e. fold sel. rewrite D. cbn [negb].
+        pose proof (inv_hidden_absent cur H sel n I MH D) as NA.
+        rewrite LH. destruct (spec_hides (e_type e)).
+        * pose proof (remove_origin_filter n cur (inv_names_nodup cur H I)) as R.
+          rewrite (filter_origin_absent n cur NA) in R. rewrite Fr.
+          destruct (remove_origin n cur); [now rewrite R | reflexivity].
+        * now rewrite (update_origin_absent n _ cur NA).
+      + rewrite (inv_hidden_no_target cur H sel I MH D). reflexivity.
+    - assert (ND : mem_str sel dropped = false).
+      { apply not_true_is_false. intro T. apply mem_str_In in T. apply Sub in T. apply mem_str_In in T. congruence. }
+      rewrite ND, (inv_find cur H sel I MH). cbn [orb].
+      destruct (dict0 sel) as [n|] eqn:D; cbn [isnone andb].
+      2:{ destruct (spec_hides (e_type e)).
+          - exists cur. split; [reflexivity|]. split; [reflexivity|]. split; [exact I | exact Sub].
+          - exists (cur ++ [(None, e)]). split; [intros r; cbn [merge_loop]; fold e; fold sel; now rewrite M, D|].
+            split; [reflexivity|]. split; [|exact Sub].
+            destruct I as [E T]. split; [|exact T]. rewrite dir_sels_app. cbn. now rewrite app_nil_r. }
+      pose proof D as D'. rewrite dict0_is in D'. apply first_some_hit_in in D'.
+      destruct (spec_hides (e_type e)) eqn:SH.
+      + exists (filter (fun oe => negb (origin_is n oe)) cur). split; [|split; [reflexivity|split]].
+        * intros r. cbn [merge_loop]. fold e. fold sel. rewrite M, D, LH. cbn [negb].
+          pose proof (remove_origin_filter n cur (inv_names_nodup cur H I)) as R. rewrite Fr.
+          destruct (remove_origin n cur); now rewrite <- R.
+        * destruct I as [E T]. cbn [snd]. split.
+          -- rewrite dir_sels_filter_origin, E, filter_filter. apply filter_ext_in'.
+             intros [m s] Im. cbn [fst snd mem_str].
+             destruct (str_eqb m n) eqn:E1, (str_eqb s sel) eqn:E2; cbn; try reflexivity.
+             ++ destruct (mem_str s H); reflexivity.
+             ++ apply str_eqb_eq in E1. subst m.
+                assert (s = sel) by (eapply nodup_fst_unique; [apply S0_nodup_fst | exact Im | exact D']). subst.
+                rewrite str_eqb_refl in E2. discriminate.
+             ++ apply str_eqb_eq in E2. subst s.
+                assert (m = n) by (eapply nodup_snd_unique; [apply S0_nodup_snd | exact Im | exact D']). subst.
+                rewrite str_eqb_refl in E1. discriminate.
+             ++ now rewrite andb_true_r.
+          -- intros s [<-|Is]; [left; eauto | now apply T].
+        * intros s Is. right. now apply Sub.
+      + exists (update_origin n (fun old => merge_entries old e) cur).
+        split; [intros r; cbn [merge_loop]; fold e; fold sel; now rewrite M, D, LH|].
+        split; [reflexivity|]. split; [|exact Sub].
+        destruct I as [E T]. cbn [snd]. split; [|exact T]. rewrite <- E. apply (dir_sels_update n _ cur).
+        intros m e' Im Em. apply str_eqb_eq in Em. subst m.
+        destruct (merge_entries_fields e' e) as (Hs & _). cbn zeta in Hs. rewrite Hs. fold sel.
+        pose proof (in_dir_sels cur n e' Im) as Id. rewrite E in Id. apply filter_In in Id as [Id _].
+        eapply nodup_fst_unique; [apply S0_nodup_fst | exact D' | exact Id].
+  Qed.
+
+  Lemma loop_is_reading ls : forall cur H, inv cur H -> (forall s, In s dropped -> In s H) ->
+    merge_loop fx dict0 (PR ls) cur = Ok (fst (fold_left apply_block_h ls (cur, H))).
+  Proof.
+    induction ls as [|le r IH]; intros cur H I Sub.
+    - unfold prune. rewrite Fh. reflexivity.
+    - destruct (step_ok le cur H I Sub) as (cur' & Hm & Hs & I' & Sub'). rewrite Hm. cbn [fold_left]. rewrite Hs.
+      now apply IH.
+  Qed.
+
+  Theorem merge_is_apply_entries ls :
+    merge_link_files fx (prune fx dropped (dict_lookup fes0) ls) fes0 = Ok (apply_entries_from dropped ls fes0).
+  Proof.
+    unfold merge_link_files, apply_entries_from. apply loop_is_reading; [|trivial]. split.
+    - symmetry. apply filter_all. intros [m s] Im. cbn [snd]. apply negb_true_iff, not_true_is_false.
+      intro T. apply mem_str_In in T. apply Dr in T. fold dict0 in T. rewrite dict0_is in T.
+      exact (first_some_none_notin s S0 T m Im).
+    - intros sel Is. now right.
+  Qed.
+End Blocks.
+
+(* when no two blocks address the same file the set of hidden paths is never consulted *)
+Definition merge_sels (ls : list lentry) : list str :=
+  map (fun le => e_selector (le_entry le)) (filter le_merge ls).
+
+Lemma apply_entries_distinct ls : forall fes H,
+  NoDup (merge_sels ls) -> (forall s, In s H -> ~ In s (merge_sels ls)) ->
+  fst (fold_left apply_block_h ls (fes, H)) = fold_left apply_block ls fes.
+Proof.
+  induction ls as [|le r IH]; intros fes H ND D; [reflexivity|]. cbn [fold_left].
+  unfold apply_block_h at 2, apply_block at 2. cbn [fst snd].
+  unfold merge_sels in ND, D. cbn [filter] in ND, D.
+  destruct (le_merge le) eqn:M.
+  - cbn [map] in ND, D. inversion ND as [|? ? Hn Hr]. subst.
+    assert (MH : mem_str (e_selector (le_entry le)) H = false).
+    { apply not_true_is_false. intro T. apply mem_str_In in T. apply (D _ T). now left. }
+    rewrite MH.
+    destruct (find_target fes (e_selector (le_entry le))) as [n|].
+    + destruct (spec_hides (e_type (le_entry le))).
+      * apply IH; [exact Hr|]. intros s [<-|Is]; [exact Hn|]. intro I. apply (D s Is). now right.
+      * apply IH; [exact Hr|]. intros s Is I. apply (D s Is). now right.
+    + destruct (spec_hides (e_type (le_entry le))); (apply IH; [exact Hr|]; intros s Is I; apply (D s Is); now right).
+  - apply IH; [exact ND | exact D].
+Qed.
+
+Lemma default_num_id fx le : fx_num_unset fx = true -> default_num fx le = le.
+Proof.
+  intros F. unfold default_num. destruct le as [[s t n h p nu ea g] m a]. cbn.
+  destruct nu; [reflexivity|]. rewrite F. reflexivity.
+Qed.
+
+(* from the text of a well-formed link file to the listing: the repaired handler
+   does to the directory entries exactly what the reference reading says *)
+Theorem blocks_are_reference_reading fx base dirsel lf fes :
+  fx_dash_hides fx = true -> fx_remove_safe fx = true -> fx_num_unset fx = true -> fx_hidden_stays fx = true ->
+  wf_linkfile lf = true ->
+  all_from_dir fes = true -> NoDup (map (fun oe : oentry => e_selector (snd oe)) fes) -> NoDup (dir_names fes) ->
+  exists ls, process_link_file fx base dirsel None (render_linkfile lf) = Ok ls /\
+             merge_link_files fx (prune fx [] (dict_lookup fes) ls) fes = Ok (apply_blocks base dirsel lf fes).
+Proof.
+  intros Fd Fr Fn Fh W A NDs NDn. eexists. split; [apply parse_wf_blocks, W|].
+  rewrite (merge_is_apply_entries fx Fd Fr Fh fes A NDs NDn []) by (intros s []).
+  unfold apply_blocks, apply_entries. f_equal. f_equal.
+  apply map_ext. intros b. now apply default_num_id.
+Qed.
+
+Theorem blocks_distinct_files fx ls fes :
+  fx_dash_hides fx = true -> fx_remove_safe fx = true -> fx_hidden_stays fx = true ->
+  all_from_dir fes = true -> NoDup (map (fun oe : oentry => e_selector (snd oe)) fes) -> NoDup (dir_names fes) ->
+  NoDup (merge_sels ls) ->
+  merge_link_files fx (prune fx [] (dict_lookup fes) ls) fes = Ok (fold_left apply_block ls fes).
+Proof.
+  intros Fd Fr Fh A NDs NDn ND. rewrite (merge_is_apply_entries fx Fd Fr Fh fes A NDs NDn []) by (intros s []).
+  f_equal. unfold apply_entries_from. apply apply_entries_distinct; [exact ND | intros s []].
+Qed.
+
+(* non-vacuity: hide first, title later (stays hidden); title first, hide later *)
+Definition ex_fes : list oentry :=
+  [(Some (lit "a.txt"%string), ci_entry (file_info (lit "/d/a.txt"%string) (lit "a.txt"%string)));
+   (Some (lit "fred"%string), ci_entry (file_info (lit "/d/fred"%string) (lit "fred"%string)))].
+Definition fred_titled : sblock :=
+  mkSBlock [] [FPath (PHere (lit "fred"%string)); FName (lit "Fred again"%string)].
+Definition a_titled : sblock :=
+  mkSBlock [] [FName (lit "Alpha"%string); FPath (PTilde (lit "a.txt"%string)); FNumb false (lit "2"%string)].
+
+Lemma example_blocks :
+  wf_linkfile [fred_hidden; fred_titled; a_titled; cool] = true /\
+  map (fun oe => (fst oe, e_name (snd oe), e_num (snd oe)))
+      (apply_blocks (lit "/d"%string) (lit "/d"%string) [fred_hidden; fred_titled; a_titled; cool] ex_fes) =
+  [(Some (lit "a.txt"%string), Some (lit "Alpha"%string), Some 2%Z);
+   (None, Some (lit "Cool web site"%string), None)] /\
+  all_from_dir ex_fes = true.
+Proof. vm_compute. repeat split; reflexivity. Qed.
